@@ -38,14 +38,7 @@ Qed.
 
 (** * strconv.Atoi *)
 
-(** The value of a digit string, positionally. *)
-Fixpoint pos_value (ds : str) : Z :=
-  match ds with
-  | [] => 0
-  | c :: r => digit_val c * 10 ^ Z.of_nat (length r) + pos_value r
-  end.
 
-Definition signed (neg : bool) (n : Z) : Z := if neg then - n else n.
 
 Lemma digits_val_spec : forall ds acc,
   forallb is_digit ds = true ->
@@ -81,11 +74,6 @@ Proof.
   intros H. split; apply byte_eqb_neq; intros ->; vm_compute in H; discriminate.
 Qed.
 
-(** The three shapes of an accepted string. *)
-Inductive int_syntax : str -> bool -> str -> Prop :=
-| syn_plain : forall ds, int_syntax ds false ds
-| syn_plus : forall ds, int_syntax (plus_sign :: ds) false ds
-| syn_minus : forall ds, int_syntax (minus_sign :: ds) true ds.
 
 Lemma split_sign_digits (ds : str) :
   ds <> [] -> forallb is_digit ds = true -> split_sign ds = (false, ds).
@@ -148,8 +136,9 @@ Proof.
     + rewrite (digits_val_spec _ 0 Hd), Z.mul_0_l, Z.add_0_l in H.
       fold (signed neg (pos_value (c :: r))) in H.
       destruct (in_int (signed neg (pos_value (c :: r)))) eqn:Hi; [|discriminate].
-      injection H as Hz. subst z. split; [exact Hsyn|]. split; [congruence|]. split; [reflexivity|].
-      split; [reflexivity|]. unfold in_int in Hi. Show. lia.
+      assert (Hz : z = signed neg (pos_value (c :: r))) by congruence. clear H.
+      split; [exact Hsyn|]. split; [congruence|]. split; [reflexivity|]. split; [exact Hz|].
+      rewrite Hz. unfold in_int in Hi. lia.
     + rewrite (digits_val_none _ 0 Hd) in H. discriminate.
   - intros (neg & ds & Hsyn & Hne & Hd & Hz & Hr).
     assert (Hs : split_sign s = (neg, ds)).
@@ -198,23 +187,13 @@ Lemma parse_bool_none_iff (s : str) :
   parse_bool s = None <-> ~ In s true_spellings /\ ~ In s false_spellings.
 Proof.
   unfold parse_bool. rewrite <- !mem_str_In.
-  destruct (mem_str s true_spellings); destruct (mem_str s false_spellings); split;
-    try discriminate; try tauto; intros [H1 H2]; congruence.
+  destruct (mem_str s true_spellings); destruct (mem_str s false_spellings); split; intros H;
+    try discriminate; try reflexivity; try (destruct H; congruence); split; discriminate.
 Qed.
 
 (** * Precedence of the sources of a `run` option *)
 
-Definition or_default {A} (parse : str -> option A) (def : A) (s : str) : A :=
-  match parse s with Some v => v | None => def end.
 
-(** The four clauses of the statement, for a value [v] obtained with [parse]. *)
-Definition precedence {A} (parse : str -> option A) (e : env) (key : str)
-           (flag : option A) (def : A) (v : A) : Prop :=
-  (forall f, flag = Some f -> v = f) /\
-  (flag = None -> forall s, lookup_env e (env_prefix ++ key) = Some s -> v = or_default parse def s) /\
-  (flag = None -> lookup_env e (env_prefix ++ key) = None ->
-     forall s, lookup_env e key = Some s -> v = or_default parse def s) /\
-  (flag = None -> lookup_env e (env_prefix ++ key) = None -> lookup_env e key = None -> v = def).
 
 Lemma precedence_int (e : env) (key : str) (flag : option Z) (def : Z) :
   precedence atoi e key flag def (run_opt_int e key flag def).
@@ -254,7 +233,6 @@ Qed.
 Lemma has_host_normalize (hs : list str) : has_host (normalize_hosts hs) = has_host hs.
 Proof. destruct hs; reflexivity. Qed.
 
-Definition is_some {A} (o : option A) : bool := match o with Some _ => true | None => false end.
 
 Lemma deploy_prerun_table (i : deploy_in) :
   is_some (refused_of (deploy_prerun i)) = should_refuse i.
@@ -323,8 +301,476 @@ Proof.
     { rewrite <- E. apply forallb_rev. }
     apply Hsub in E2.
     assert (Hr : drop_while_eq slash (rev (drop_while_eq slash p)) = []).
-    { destruct (drop_while_eq slash (rev (drop_while_eq slash p))); [reflexivity|].
-      cbn in H. destruct (rev l); discriminate. }
+    { apply (f_equal (@rev byte)) in H. rewrite rev_involutive in H. exact H. }
     rewrite Hr in E2. discriminate.
   - intros H. apply Hd in H. rewrite H. reflexivity.
 Qed.
+
+Lemma root_listed_iff (ps : list str) :
+  root_listed ps = true <->
+  ps = [] \/ exists p, In p ps /\ forallb (fun c => byte_eqb c slash) p = true.
+Proof.
+  unfold root_listed, normalize_prefixes. rewrite mem_str_In. destruct ps as [|p0 ps'].
+  - cbn. split; [auto|]. intros _. auto.
+  - set (l := p0 :: ps'). rewrite in_map_iff. split.
+    + intros (p & Hp & Hin). right. exists p. split; [exact Hin|].
+      apply trim_slash_nil_iff. congruence.
+    + intros [H|(p & Hin & Hp)]; [discriminate|]. exists p. split; [|exact Hin].
+      apply trim_slash_nil_iff in Hp. now rewrite Hp.
+Qed.
+
+(** The pinned tree never reports the missing host … *)
+Lemma pinned_never_tls_host (i : deploy_in) :
+  refused_of (deploy_prerun_pinned i) <> Some ErrTlsHost.
+Proof.
+  unfold deploy_prerun_pinned, deploy_prerun_with.
+  assert (H : Nat.eqb (length (normalize_hosts (di_hosts i))) 0 = false)
+    by (destruct (di_hosts i); reflexivity).
+  rewrite H, andb_false_r.
+  destruct (di_maxreq_changed i && negb (di_bufreq_changed i));
+  destruct (di_maxresp_changed i && negb (di_bufresp_changed i));
+  destruct (di_tls i && negb (mem_str [slash] (normalize_prefixes (di_prefixes i)))); cbn; congruence.
+Qed.
+
+(** … and behaves like the repaired one on every other input. *)
+Lemma pinned_agrees_outside (i : deploy_in) :
+  di_tls i && negb (has_host (di_hosts i)) = false ->
+  deploy_prerun_pinned i = deploy_prerun i.
+Proof.
+  unfold deploy_prerun_pinned, deploy_prerun, deploy_prerun_with. rewrite has_host_normalize.
+  intros H. rewrite H.
+  assert (H0 : Nat.eqb (length (normalize_hosts (di_hosts i))) 0 = false)
+    by (destruct (di_hosts i); reflexivity).
+  rewrite H0, andb_false_r. reflexivity.
+Qed.
+
+(** `deploy svc --target x:80 --tls` *)
+Definition tls_without_host : deploy_in := mkDeployIn true [] [] false false false false None.
+
+Lemma pinned_tls_host_witness :
+  should_refuse tls_without_host = true /\
+  deploy_prerun tls_without_host = PreRefused ErrTlsHost /\
+  deploy_prerun_pinned tls_without_host = PreOk false [[]] [[slash]].
+Proof. vm_compute. repeat split. Qed.
+
+(** * Exit status *)
+
+Lemma exit_code_01 (o : outcome) : exit_code o = 0%N \/ exit_code o = 1%N.
+Proof. destruct o; cbn; auto. Qed.
+
+Lemma exit_nonzero_iff (validation dial rpc : option str) :
+  exit_code (client_outcome validation dial rpc) <> 0%N <->
+  (validation <> None \/ dial <> None \/ rpc <> None).
+Proof.
+  destruct validation, dial, rpc; cbn; split; intros H; try discriminate; try congruence;
+    try (left; discriminate); try (right; left; discriminate); try (right; right; discriminate).
+  destruct H as [H|[H|H]]; congruence.
+Qed.
+
+Lemma exit_zero_iff (o : outcome) : exit_code o = 0%N <-> o = OSuccess.
+Proof. destruct o; cbn; split; congruence. Qed.
+
+Lemma stderr_empty_iff (o : outcome) : stderr_of o = [] <-> o = OSuccess.
+Proof.
+  destruct o; cbn; split; try congruence; intros H; try discriminate.
+Qed.
+
+(** No dial without passing validation, no call without a connection. *)
+Lemma outcome_order (validation dial rpc : option str) :
+  (forall m, validation = Some m -> client_outcome validation dial rpc = OValidation m) /\
+  (forall m, validation = None -> dial = Some m -> client_outcome validation dial rpc = ODial m) /\
+  (forall m, validation = None -> dial = None -> rpc = Some m -> client_outcome validation dial rpc = ORpc m).
+Proof.
+  repeat split; intros; subst; reflexivity.
+Qed.
+
+(** * The `list` table *)
+
+Local Open Scope nat_scope.
+
+Definition no_byte (c : byte) (s : str) : bool := forallb (fun x => negb (byte_eqb x c)) s.
+
+Lemma no_byte_app c a b : no_byte c (a ++ b) = no_byte c a && no_byte c b.
+Proof. apply forallb_app. Qed.
+
+Lemma until_app c a r : no_byte c a = true -> until c (a ++ c :: r) = Some (a, r).
+Proof.
+  induction a as [|x a IH]; cbn; intros H.
+  - now rewrite byte_eqb_refl.
+  - apply andb_true_iff in H as [H1 H2]. apply negb_true_iff in H1. now rewrite H1, (IH H2).
+Qed.
+
+Lemma clean_app a b : clean (a ++ b) = clean a && clean b.
+Proof. apply forallb_app. Qed.
+
+Lemma clean_no_esc s : clean s = true -> no_byte esc s = true.
+Proof.
+  unfold no_byte. induction s as [|x s IH]; cbn; [reflexivity|]. intros H.
+  apply andb_true_iff in H as [H1 H2]. apply andb_true_iff in H1 as [H1 _]. rewrite H1. exact (IH H2).
+Qed.
+
+Lemma clean_no_nl s : clean s = true -> no_byte newline s = true.
+Proof.
+  unfold no_byte. induction s as [|x s IH]; cbn; [reflexivity|]. intros H.
+  apply andb_true_iff in H as [H1 H2]. apply andb_true_iff in H1 as [_ H1]. rewrite H1. exact (IH H2).
+Qed.
+
+Definition starts_cell (rest : str) : Prop := rest = [] \/ exists r, rest = esc :: r.
+
+Lemma drop_spaces k rest :
+  starts_cell rest -> drop_while_eq space (repeat space k ++ space :: space :: rest) = rest.
+Proof.
+  intros Hr. induction k as [|k IH].
+  - cbn [repeat app drop_while_eq]. rewrite !byte_eqb_refl.
+    destruct Hr as [->|(r & ->)]; reflexivity.
+  - cbn [repeat app drop_while_eq]. rewrite byte_eqb_refl. exact IH.
+Qed.
+
+Lemma render_cell_shape sty w v rest :
+  render_cell sty w v ++ rest =
+  esc :: x5b :: (sty ++ x6d :: (v ++ esc :: x5b :: x30 :: x6d ::
+                                (repeat space (w - length v) ++ space :: space :: rest))).
+Proof.
+  unfold render_cell, style_open, style_close. cbn [app]. rewrite <- !app_assoc. cbn [app].
+  do 2 f_equal. f_equal. rewrite <- !app_assoc. reflexivity.
+Qed.
+
+Lemma parse_cell_render sty w v rest :
+  no_byte x6d sty = true -> no_byte esc v = true -> starts_cell rest ->
+  parse_cell (render_cell sty w v ++ rest) = Some (sty, v, rest).
+Proof.
+  intros Hs Hv Hr. rewrite render_cell_shape. unfold parse_cell.
+  rewrite !byte_eqb_refl. cbn [andb]. rewrite (until_app _ _ _ Hs), (until_app _ _ _ Hv).
+  rewrite !byte_eqb_refl. cbn [andb]. now rewrite drop_spaces.
+Qed.
+
+Lemma cell_style_cases n col :
+  cell_style n col = style_italic \/ cell_style n col = style_bold \/ cell_style n col = style_plain.
+Proof. unfold cell_style. destruct (n =? 0); [auto|]. destruct (col =? 0); auto. Qed.
+
+Lemma cell_style_no_m n col : no_byte x6d (cell_style n col) = true.
+Proof. destruct (cell_style_cases n col) as [->|[->| ->]]; reflexivity. Qed.
+
+Lemma cell_style_no_nl n col : no_byte newline (cell_style n col) = true.
+Proof. destruct (cell_style_cases n col) as [->|[->| ->]]; reflexivity. Qed.
+
+Lemma render_cells_starts n col ws cells : starts_cell (render_cells n col ws cells).
+Proof.
+  destruct cells as [|c r]; [left; reflexivity|right]. cbn [render_cells].
+  rewrite render_cell_shape. eexists. reflexivity.
+Qed.
+
+Lemma parse_cells_render : forall cells n col ws,
+  forallb clean cells = true ->
+  parse_cells (length cells) (render_cells n col ws cells) =
+    Some (combine (map (cell_style n) (seq col (length cells))) cells).
+Proof.
+  induction cells as [|c r IH]; intros n col ws H; [reflexivity|].
+  cbn in H. apply andb_true_iff in H as [Hc Hr].
+  cbn [length parse_cells render_cells].
+  rewrite (parse_cell_render _ _ _ _ (cell_style_no_m n col) (clean_no_esc _ Hc)
+                             (render_cells_starts n (S col) (tl ws) r)).
+  rewrite (IH n (S col) (tl ws) Hr). reflexivity.
+Qed.
+
+Lemma parse_header_render ws : parse_header (render_cells 0 0 ws header_row) = true.
+Proof.
+  unfold parse_header. change 6 with (length header_row).
+  rewrite parse_cells_render by reflexivity. reflexivity.
+Qed.
+
+Lemma clean_tls_cell b : clean (tls_cell b) = true.
+Proof. destruct b; reflexivity. Qed.
+
+Lemma clean_desc_row d : wf_desc d = true -> forallb clean (desc_row d) = true.
+Proof.
+  unfold wf_desc, desc_row. intros H.
+  repeat (apply andb_true_iff in H as [H ?]). cbn [forallb].
+  rewrite clean_tls_cell. repeat (apply andb_true_iff; split); auto.
+Qed.
+
+Lemma parse_tls_cell b : parse_tls (tls_cell b) = Some b.
+Proof. destruct b; reflexivity. Qed.
+
+Lemma parse_desc_render n ws d :
+  wf_desc d = true -> parse_desc (render_cells (S n) 0 ws (desc_row d)) = Some d.
+Proof.
+  intros H. unfold parse_desc. change 6 with (length (desc_row d)).
+  rewrite (parse_cells_render _ _ _ _ (clean_desc_row d H)).
+  unfold desc_row. cbn [length seq map combine fst snd].
+  replace (styles_ok 1 _) with true by reflexivity.
+  rewrite parse_tls_cell. destruct d; reflexivity.
+Qed.
+
+(** Lines *)
+
+Lemma split_on_app sep l r :
+  no_byte sep l = true -> split_on sep (l ++ sep :: r) = l :: split_on sep r.
+Proof.
+  induction l as [|x l IH]; cbn; intros H.
+  - now rewrite byte_eqb_refl.
+  - apply andb_true_iff in H as [H1 H2]. apply negb_true_iff in H1. now rewrite H1, (IH H2).
+Qed.
+
+Lemma split_on_nosep sep l : no_byte sep l = true -> split_on sep l = [l].
+Proof.
+  induction l as [|x l IH]; cbn; intros H; [reflexivity|].
+  apply andb_true_iff in H as [H1 H2]. apply negb_true_iff in H1. now rewrite H1, (IH H2).
+Qed.
+
+Lemma no_nl_spaces k : no_byte newline (repeat space k) = true.
+Proof. induction k; [reflexivity|]. cbn. exact IHk. Qed.
+
+Lemma render_cells_no_nl : forall cells n col ws,
+  forallb clean cells = true -> no_byte newline (render_cells n col ws cells) = true.
+Proof.
+  induction cells as [|c r IH]; intros n col ws H; [reflexivity|].
+  cbn in H. apply andb_true_iff in H as [Hc Hr]. cbn [render_cells].
+  rewrite no_byte_app, (IH _ _ _ Hr), andb_true_r.
+  unfold render_cell, style_open, style_close.
+  change (esc :: x5b :: cell_style n col ++ [x6d]) with ([esc; x5b] ++ cell_style n col ++ [x6d]).
+  rewrite !no_byte_app, cell_style_no_nl, (clean_no_nl _ Hc), no_nl_spaces. reflexivity.
+Qed.
+
+Fixpoint row_lines (n : nat) (ws : list nat) (rows : list row) : list str :=
+  match rows with
+  | [] => []
+  | r :: rs => render_cells n 0 ws r :: row_lines (S n) ws rs
+  end.
+
+Lemma split_render_rows : forall rows n ws,
+  forallb (forallb clean) rows = true ->
+  split_on newline (render_rows n ws rows) = row_lines n ws rows ++ [[]].
+Proof.
+  induction rows as [|r rs IH]; intros n ws H; [reflexivity|].
+  cbn in H. apply andb_true_iff in H as [Hr Hrs].
+  cbn [render_rows row_lines]. unfold render_row. rewrite <- app_assoc. cbn [app].
+  rewrite (split_on_app _ _ _ (render_cells_no_nl _ n 0 ws Hr)), (IH _ _ Hrs). reflexivity.
+Qed.
+
+Lemma lines_of_render rows n ws :
+  forallb (forallb clean) rows = true ->
+  lines_of (render_rows n ws rows) = Some (row_lines n ws rows).
+Proof.
+  intros H. unfold lines_of. rewrite (split_render_rows _ _ _ H), rev_app_distr. cbn [rev app].
+  now rewrite rev_involutive.
+Qed.
+
+Lemma parse_descs_render : forall ds n ws,
+  forallb wf_desc ds = true -> parse_descs (row_lines (S n) ws (map desc_row ds)) = Some ds.
+Proof.
+  induction ds as [|d ds IH]; intros n ws H; [reflexivity|].
+  cbn in H. apply andb_true_iff in H as [Hd Hds].
+  cbn [map row_lines parse_descs]. now rewrite (parse_desc_render _ _ _ Hd), (IH _ _ Hds).
+Qed.
+
+Lemma clean_table_rows ds :
+  forallb wf_desc ds = true -> forallb (forallb clean) (table_rows ds) = true.
+Proof.
+  intros H. unfold table_rows. cbn [forallb]. apply andb_true_iff. split; [reflexivity|].
+  induction ds as [|d ds IH]; [reflexivity|]. cbn in H. apply andb_true_iff in H as [Hd Hds].
+  cbn [map forallb]. now rewrite (clean_desc_row _ Hd), (IH Hds).
+Qed.
+
+Lemma parse_table_render ds :
+  forallb wf_desc ds = true -> parse_table (render_table (table_rows ds)) = Some ds.
+Proof.
+  intros H. unfold parse_table, render_table.
+  rewrite (lines_of_render _ _ _ (clean_table_rows _ H)).
+  unfold table_rows at 2. cbn [row_lines]. rewrite parse_header_render.
+  exact (parse_descs_render _ _ _ H).
+Qed.
+
+(** Sorting *)
+
+Lemma forallb_insert f d l : forallb f (insert_by_name d l) = f d && forallb f l.
+Proof.
+  induction l as [|e l IH]; cbn; [reflexivity|].
+  destruct (str_leb (d_name d) (d_name e)); cbn; [reflexivity|]. rewrite IH.
+  destruct (f d), (f e); reflexivity.
+Qed.
+
+Lemma forallb_sort f l : forallb f (sort_by_name l) = forallb f l.
+Proof.
+  induction l as [|d l IH]; [reflexivity|]. cbn [sort_by_name fold_right].
+  fold (sort_by_name l). now rewrite forallb_insert, IH.
+Qed.
+
+Lemma insert_perm d l : Permutation (insert_by_name d l) (d :: l).
+Proof.
+  induction l as [|e l IH]; cbn; [reflexivity|].
+  destruct (str_leb (d_name d) (d_name e)); [reflexivity|].
+  rewrite IH. apply perm_swap.
+Qed.
+
+Lemma sort_perm l : Permutation (sort_by_name l) l.
+Proof.
+  induction l as [|d l IH]; [reflexivity|]. cbn [sort_by_name fold_right]. fold (sort_by_name l).
+  rewrite insert_perm. now constructor.
+Qed.
+
+Lemma str_leb_total : forall a b, str_leb a b = true \/ str_leb b a = true.
+Proof.
+  induction a as [|x a IH]; intros [|y b]; cbn; auto.
+  destruct (byte_n x <? byte_n y)%N eqn:E1; [auto|].
+  destruct (byte_n y <? byte_n x)%N eqn:E2; [auto|]. apply IH.
+Qed.
+
+Lemma byte_n_inj x y : byte_n x = byte_n y -> x = y.
+Proof.
+  unfold byte_n. intros H. pose proof (Byte.of_to_N x) as Hx. pose proof (Byte.of_to_N y) as Hy.
+  rewrite H in Hx. congruence.
+Qed.
+
+Lemma str_leb_antisym : forall a b, str_leb a b = true -> str_leb b a = true -> a = b.
+Proof.
+  induction a as [|x a IH]; intros [|y b]; cbn; try congruence.
+  destruct (byte_n x <? byte_n y)%N eqn:E1; destruct (byte_n y <? byte_n x)%N eqn:E2;
+    try discriminate; try lia.
+  intros H1 H2. assert (byte_n x = byte_n y) by lia.
+  f_equal; [now apply byte_n_inj | now apply IH].
+Qed.
+
+Lemma str_leb_trans : forall a b c, str_leb a b = true -> str_leb b c = true -> str_leb a c = true.
+Proof.
+  induction a as [|x a IH]; intros [|y b] [|z c]; cbn; try congruence.
+  destruct (byte_n x <? byte_n y)%N eqn:E1; destruct (byte_n y <? byte_n z)%N eqn:E2;
+  destruct (byte_n x <? byte_n z)%N eqn:E3; destruct (byte_n y <? byte_n x)%N eqn:E4;
+  destruct (byte_n z <? byte_n y)%N eqn:E5; destruct (byte_n z <? byte_n x)%N eqn:E6;
+    try congruence; try lia.
+  apply IH.
+Qed.
+
+
+Lemma insert_sorted d l : Sorted name_le l -> Sorted name_le (insert_by_name d l).
+Proof.
+  induction l as [|e l IH]; intros Hs; cbn.
+  - repeat constructor.
+  - destruct (str_leb (d_name d) (d_name e)) eqn:E.
+    + constructor; [exact Hs|]. constructor. exact E.
+    + inversion Hs as [|? ? Hs' Hhd]; subst. constructor; [now apply IH|].
+      assert (Hed : name_le e d).
+      { destruct (str_leb_total (d_name d) (d_name e)) as [H|H]; [congruence|exact H]. }
+      destruct l as [|g l]; cbn; [constructor; exact Hed|].
+      destruct (str_leb (d_name d) (d_name g)); constructor; [exact Hed|].
+      inversion Hhd; assumption.
+Qed.
+
+Lemma sort_sorted l : Sorted name_le (sort_by_name l).
+Proof.
+  induction l as [|d l IH]; [constructor|]. cbn [sort_by_name fold_right]. fold (sort_by_name l).
+  now apply insert_sorted.
+Qed.
+
+(** From services to descriptions *)
+
+Lemma clean_join l : forallb clean l = true -> clean (join [comma] l) = true.
+Proof.
+  induction l as [|x l IH]; [reflexivity|]. intros H. cbn in H.
+  apply andb_true_iff in H as [Hx Hl]. destruct l as [|y l]; [exact Hx|].
+  change (join [comma] (x :: y :: l)) with (x ++ [comma] ++ join [comma] (y :: l)).
+  rewrite !clean_app, Hx, (IH Hl). reflexivity.
+Qed.
+
+Lemma wf_describe s : wf_service s = true -> wf_desc (describe s) = true.
+Proof.
+  unfold wf_service, wf_desc, describe. intros H.
+  repeat (apply andb_true_iff in H as [H ?]). cbn [d_name d_host d_path d_target d_state].
+  rewrite H, (clean_join (sv_paths s)), (clean_join (sv_targets s)) by assumption.
+  assert (Hh : clean (if is_nil (join [comma] (sv_hosts s)) then [star] else join [comma] (sv_hosts s)) = true).
+  { destruct (is_nil (join [comma] (sv_hosts s))); [reflexivity|now apply clean_join]. }
+  rewrite Hh. cbn. assumption.
+Qed.
+
+Lemma wf_describe_all svcs :
+  forallb wf_service svcs = true -> forallb wf_desc (map describe svcs) = true.
+Proof.
+  induction svcs as [|s l IH]; [reflexivity|]. cbn. intros H.
+  apply andb_true_iff in H as [Hs Hl]. now rewrite (wf_describe _ Hs), (IH Hl).
+Qed.
+
+(** Reading back what `list` prints gives exactly the services, by name. *)
+Lemma list_roundtrip svcs :
+  forallb wf_service svcs = true ->
+  parse_table (render_list svcs) = Some (sort_by_name (map describe svcs)).
+Proof.
+  intros H. unfold render_list. apply parse_table_render.
+  rewrite forallb_sort. now apply wf_describe_all.
+Qed.
+
+(** The comma-joined fields determine their elements. *)
+
+Lemma contains_byte_cons x s c : contains_byte (x :: s) c = byte_eqb x c || contains_byte s c.
+Proof.
+  unfold contains_byte. cbn. destruct (byte_eqb x c); [reflexivity|].
+  destruct (index_byte s c); reflexivity.
+Qed.
+
+Lemma comma_free_no_byte s : comma_free s = true -> no_byte comma s = true.
+Proof.
+  unfold comma_free. induction s as [|x s IH]; [reflexivity|].
+  rewrite contains_byte_cons. cbn. destruct (byte_eqb x comma); cbn; [discriminate|exact IH].
+Qed.
+
+Lemma split_join_commas : forall l,
+  l <> [] -> forallb comma_free l = true -> split_on comma (join [comma] l) = l.
+Proof.
+  induction l as [|x l IH]; [congruence|]. intros _ H. cbn in H.
+  apply andb_true_iff in H as [Hx Hl]. destruct l as [|y l].
+  - cbn [join]. apply split_on_nosep. now apply comma_free_no_byte.
+  - change (join [comma] (x :: y :: l)) with (x ++ comma :: join [comma] (y :: l)).
+    rewrite (split_on_app _ _ _ (comma_free_no_byte _ Hx)), IH; [reflexivity|congruence|exact Hl].
+Qed.
+
+(** Column layout: every column is as wide as its longest cell, so the
+    padding count never truncates and all rows have the same visible width. *)
+
+
+Fixpoint fits (ws : list nat) (cells : row) {struct cells} : bool :=
+  match cells, ws with
+  | [], _ => true
+  | c :: r, w :: ws' => (length c <=? w) && fits ws' r
+  | _ :: _, [] => false
+  end.
+
+Lemma upd_widths_mono : forall r ws cells, fits ws cells = true -> fits (upd_widths ws r) cells = true.
+Proof.
+  induction r as [|c r IH]; intros ws cells H; [destruct cells; exact H|].
+  destruct cells as [|d cells]; [reflexivity|]. destruct ws as [|w ws]; [discriminate|].
+  cbn in *. apply andb_true_iff in H as [H1 H2]. rewrite (IH _ _ H2), andb_true_r. lia.
+Qed.
+
+Lemma upd_widths_fits : forall r ws, fits (upd_widths ws r) r = true.
+Proof.
+  induction r as [|c r IH]; intros ws; [reflexivity|]. destruct ws as [|w ws]; cbn; rewrite IH; lia.
+Qed.
+
+Lemma widths_fit_from : forall rows ws r,
+  (fits ws r = true \/ In r rows) -> fits (fold_left upd_widths rows ws) r = true.
+Proof.
+  induction rows as [|x rows IH]; intros ws r H; cbn.
+  - destruct H as [H|[]]. exact H.
+  - apply IH. destruct H as [H|[->|H]]; [left; now apply upd_widths_mono | left; apply upd_widths_fits | now right].
+Qed.
+
+Lemma widths_fit rows r : In r rows -> fits (widths rows) r = true.
+Proof. intros H. apply widths_fit_from. now right. Qed.
+
+Lemma visible_len_fits : forall cells ws,
+  fits ws cells = true -> visible_len ws cells = fold_right (fun w a => w + 2 + a) 0 (firstn (length cells) ws).
+Proof.
+  induction cells as [|c r IH]; intros ws H; [reflexivity|]. destruct ws as [|w ws]; [discriminate|].
+  cbn in *. apply andb_true_iff in H as [H1 H2]. rewrite (IH _ H2). lia.
+Qed.
+
+(** Rows of equal arity occupy the same visible width. *)
+Lemma table_aligned rows r1 r2 :
+  In r1 rows -> In r2 rows -> length r1 = length r2 ->
+  visible_len (widths rows) r1 = visible_len (widths rows) r2.
+Proof.
+  intros H1 H2 Hl. rewrite !visible_len_fits by now apply widths_fit. now rewrite Hl.
+Qed.
+
+(** The padding of a cell is exactly the column width minus the cell. *)
+Lemma table_pad_exact rows r : In r rows -> fits (widths rows) r = true.
+Proof. apply widths_fit. Qed.
